@@ -674,11 +674,12 @@ impl ObjectReceiver {
             return Err(FluteError::new("Pkt cache is full"));
         }
 
-        match self.cache_size.checked_add(pkt.data.len()) {
-            Some(_) => Ok(()),
+        let cache_size = match self.cache_size.checked_add(pkt.data.len()) {
+            Some(cache_size) => Ok(cache_size),
             None => Err(FluteError::new("add overflow")),
         }?;
         self.cache.push(Box::new(pkt.to_cache()));
+        self.cache_size = cache_size;
         Ok(())
     }
 
